@@ -76,6 +76,7 @@ theorem applyRes_inProg (cfg : Cfg) (pol : Policy) (step : Nat) (tickEv : Ev) (d
     simp only [applyRes]
     split
     · simp
+    · simp
     · split
       · split <;> simp
       · simp
